@@ -88,10 +88,10 @@ def insert (a : Arr) (pos v : Nat) (o : Oracle) : Res :=
                  tally := a'.tally + 1 }, .ok pos, [], o'⟩
     if pos ≥ a.capa ∨ a.size ≥ a.capa then
       match retryCapa (wantCapa a pos) (minCapa a pos) o1 with
-      | (none, o2) => ⟨a, .error .enomem, [.freed v], o2⟩
+      | (none, o2) => ⟨a, .error .enomem, [], o2⟩   -- the caller keeps the data on failure (SIMPLE copier)
       | (some c, o2) =>
         let a' := { a with capa := c }
-        if pos ≥ a'.capa ∨ a'.size ≥ a'.capa then ⟨a', .error .ebuffull, [.freed v], o2⟩
+        if pos ≥ a'.capa ∨ a'.size ≥ a'.capa then ⟨a', .error .ebuffull, [], o2⟩
         else place a' o2
     else place a o1
 
